@@ -39,9 +39,16 @@ from sourmash.logging import set_quiet
 
 set_quiet(True)
 KSIZE = 31
-SPEC_RE = re.compile(r"^(lin|lazy|dir|plist|zip|mf|lca|sql|sbt-([2-9]|\d\d+)-\d+-\d+-[01])$")
+SPEC_RE = re.compile(r"^(lin|lazy|dir|plist|zip|zipnm|mf|lca|lcasql|sql|sbt-([2-9]|\d\d+)-\d+-\d+-[01])$")
 VERIF = os.path.dirname(os.path.dirname(os.path.dirname(os.path.abspath(__file__))))
 TMPROOT = os.path.join(os.environ.get("VERIF_BUILD", os.path.join(VERIF, ".build")), "tmp")
+
+
+def mh_md5(mh):
+    """md5 of a sketch through the native entry point (the signature's md5sum() is another route to it)"""
+    from sourmash._lowlevel import lib
+    from sourmash.utils import decode_str
+    return decode_str(mh._methodcall(lib.kmerminhash_md5sum))
 
 
 def exc_name(e):
@@ -69,6 +76,18 @@ class Case:
         self.dir = os.path.join(TMPROOT, f"search-{os.getpid()}-{n}")
         self.sigfiles = None
         self.cli_files = []
+        self.route = 0          # alternates among equivalent spellings of one operation; the model does not see it
+        self.loc = {}           # spec -> expected location of every database position (None = do not check)
+        self.under = {}         # spec -> the object `insert` goes to (LazyLinearIndex wraps one)
+        self.whole = {}         # spec -> the location the container itself must report (file-backed kinds)
+        self.history = []       # (what, [(signature object, name, md5, hashes)]) of every result handed out so far
+        self.generation = 0     # bumped by `insert`
+        self.snap = {}          # sketch id -> (md5, hashes) when it was defined
+        self.nops = -1          # index of the current op line within the case
+
+    def next_route(self, n):
+        self.route += 1
+        return self.route % n
 
     def close(self):
         for c in self.cont.values():
@@ -106,63 +125,267 @@ class Case:
         if spec in self.cont:
             return self.cont[spec]
         sigs = self.sigs()
+        n = len(sigs)
+        loc = None
+        whole = None
+        r = self.next_route(3)
         if spec == "lin":
-            c = LinearIndex(sigs)
+            if r == 0 or not sigs:
+                c = LinearIndex(sigs)
+                loc = [None] * n
+            elif r == 1:
+                c = LinearIndex()
+                for ss in sigs:
+                    c.insert(ss)
+                loc = [None] * n
+            else:
+                p = self.tmp(f"lin{self.generation}.sig")
+                with open(p, "w") as fp:
+                    sigmod.save_signatures_to_json(sigs, fp)
+                c = LinearIndex.load(p)
+                loc = [p] * n
+                whole = p
+            self.under[spec] = c
         elif spec == "lazy":
-            c = LazyLinearIndex(LinearIndex(sigs))
+            if r == 2 and sigs:
+                # what `prefetch --linear` does: the lazy wrapper around a loaded collection that has locations
+                d, files = self.write_sigfiles()
+                c = LazyLinearIndex(MultiIndex.load_from_directory(d))
+                self.under.pop(spec, None)
+                loc = list(files)
+            else:
+                inner = LinearIndex(sigs)
+                c = LazyLinearIndex(inner)
+                if r == 1 and sigs:
+                    # a chained, deferred select (the command line always selects)
+                    c = c.select(ksize=KSIZE, moltype="DNA")
+                self.under[spec] = inner
+                loc = [None] * n
         elif spec == "dir":
             d, files = self.write_sigfiles()
-            c = MultiIndex.load_from_directory(d) if files else MultiIndex.load([], [], None)
+            if files and r == 1:
+                # the same directory named by a relative path: the locations are relative as well
+                back = os.getcwd()
+                os.chdir(self.dir)
+                try:
+                    c = MultiIndex.load_from_directory(os.path.relpath(d, self.dir))
+                finally:
+                    os.chdir(back)
+                loc = [os.path.relpath(f, self.dir) for f in files]
+                whole = os.path.relpath(d, self.dir)
+            else:
+                c = MultiIndex.load_from_directory(d) if files else MultiIndex.load([], [], None)
+                loc = list(files)
+                whole = d if files else None
         elif spec == "plist":
             d, files = self.write_sigfiles()
             if files:
-                p = self.tmp("pathlist.txt")
+                p = self.tmp(f"pathlist{self.generation}.txt")
                 with open(p, "w") as fp:
                     fp.write("\n".join(files) + "\n")
-                c = MultiIndex.load_from_pathlist(p)
+                c = MultiIndex.load_from_pathlist(p) if r else sourmash.load_file_as_index(p)
+                whole = p
             else:
                 c = MultiIndex.load([], [], None)
-        elif spec == "zip":
-            p = self.tmp("coll.zip")
-            with SaveSignaturesToLocation(p) as save:
-                for ss in sigs:
-                    save.add(ss)
-            c = ZipFileLinearIndex.load(p)
+            loc = list(files)
+        elif spec in ("zip", "zipnm"):
+            p = self.tmp(f"coll{self.generation}.zip")
+            if not os.path.exists(p):
+                with SaveSignaturesToLocation(p) as save:
+                    for ss in sigs:
+                        save.add(ss)
+            if spec == "zipnm":
+                c = ZipFileLinearIndex.load(p, use_manifest=False)
+            else:
+                c = ZipFileLinearIndex.load(p) if r else sourmash.load_file_as_index(p)
+            loc = [p] * n
+            whole = p
         elif spec == "mf":
-            d, files = self.write_sigfiles()
+            # every file also holds a sketch the manifest does NOT list (and that would match): the index must
+            # pick from each file only what its manifest names
+            d = self.tmp(f"mfsigs{self.generation}")
+            os.makedirs(d, exist_ok=True)
+            files = []
+            for k, ss in enumerate(sigs):
+                f = os.path.join(d, f"{k:03d}.sig")
+                with open(f, "w") as fp:
+                    sigmod.save_signatures_to_json([decoy_of(ss, k), ss], fp)
+                files.append(f)
 
             def it():
                 for ss, f in zip(sigs, files):
                     yield ss, f
             m = CollectionManifest.create_manifest(it(), include_signature=False)
-            p = self.tmp("mf.csv")
+            p = self.tmp(f"mf{self.generation}.csv")
             with open(p, "w", newline="") as fp:
                 m.write_to_csv(fp, write_header=True)
-            c = StandaloneManifestIndex.load(p)
+            c = StandaloneManifestIndex.load(p) if r else sourmash.load_file_as_index(p)
+            loc = list(files)
+            whole = p
         elif spec.startswith("sbt-"):
             _, d, t, cs, saved = spec.split("-")
             c = create_sbt_index(bloom_filter_size=int(t), n_children=int(d))
             for ss in sigs:
                 c.insert(ss)
             if int(saved) and sigs:      # an empty tree cannot be saved (C10); search the in-memory one
-                p = self.tmp(f"tree-{d}-{t}.sbt.zip")
+                p = self.tmp(f"tree-{d}-{t}-{self.generation}.sbt.zip")
                 c.save(p)
                 c = load_sbt_index(p, cache_size=(int(cs) or None))
-        elif spec == "lca":
+                loc = [p] * n
+            self.under[spec] = c
+        elif spec in ("lca", "lcasql"):
             scs = {ss.minhash.scaled for ss in sigs}
             sc = max(scs) if scs else 1
             c = LCA_Database(KSIZE, sc)
             for ss in sigs:
                 c.insert(ss)
+            loc = [None] * n
+            if spec == "lca" and r == 1 and sigs:
+                p = self.tmp(f"db{self.generation}.lca.json")
+                c.save(p)
+                c = LCA_Database.load(p)
+                loc = [p] * n
+            if spec == "lcasql":
+                p = self.tmp(f"db{self.generation}.lca.sqldb")
+                c.save_to_sql(p)
+                c = sourmash.load_file_as_index(p)
+                loc = [p] * n
+                whole = p
+            self.under[spec] = c
         elif spec == "sql":
-            p = self.tmp("idx.sqldb")
-            c = SqliteIndex.create(p)
-            for ss in sigs:
-                c.insert(ss)
+            p = self.tmp(f"idx{self.generation}.sqldb")
+            if r == 1 and sigs:
+                with SaveSignaturesToLocation(p) as save:
+                    for ss in sigs:
+                        save.add(ss)
+                c = sourmash.load_file_as_index(p)
+            else:
+                c = SqliteIndex.create(p)
+                for ss in sigs:
+                    c.insert(ss)
+            loc = [p] * n
+            whole = p
+            self.under[spec] = c
         else:
             raise AssertionError(spec)
         self.cont[spec] = c
+        self.loc[spec] = loc
+        self.whole[spec] = whole
+        v = self.views(spec, c)
+        if v:
+            raise ViewFail(v)
         return c
+
+    # ---- views must agree ---------------------------------------------------------------------------
+    def expected_md5s(self, spec):
+        sigs = self.sigs()
+        if spec in ("lca", "lcasql") and sigs:
+            sc = max(ss.minhash.scaled for ss in sigs)
+            return sorted(mh_md5(ss.minhash.flatten().downsample(scaled=sc)) if ss.minhash.scaled else ss.md5sum() for ss in sigs)
+        return sorted(ss.md5sum() for ss in sigs)
+
+    def views(self, spec, c):
+        """len / bool / signatures() / signatures_with_location() / manifest rows of a container agree with each other
+        and with what was stored; -> '' or what disagrees"""
+        sigs = self.sigs()
+        kind = spec.split("-")[0]
+        try:
+            n = len(c)
+        except (NotImplementedError, TypeError):
+            n = None
+        if n is not None and n != len(sigs):
+            return f"len:{kind}:{n}!={len(sigs)}"
+        if self.whole.get(spec) is not None and str(c.location) != str(self.whole[spec]):
+            return f"container-location:{kind}:{os.path.basename(str(c.location))}"
+        if not sigs:
+            return ""
+        if kind not in ("sbt",) and bool(c) != bool(sigs):
+            return f"bool:{kind}"
+        got = sorted(ss.md5sum() for ss in c.signatures())
+        if got != self.expected_md5s(spec):
+            return f"signatures:{kind}:{len(got)}-of-{len(sigs)}"
+        wl = list(c.signatures_with_location())
+        if sorted(ss.md5sum() for ss, _ in wl) != got:
+            return f"signatures_with_location:{kind}"
+        loc = self.loc.get(spec)
+        if loc is not None and kind not in ("lca",):
+            by = {}
+            for pos, ss in enumerate(sigs):
+                by.setdefault((ss.name, ss.md5sum()), set()).add(loc[pos])
+            for ss, l in wl:
+                want = by.get((ss.name, ss.md5sum()))
+                if want is not None and l not in want and kind != "lcasql":
+                    return f"location:{kind}:{os.path.basename(str(l))}"
+        m = getattr(c, "manifest", None)
+        if m is not None and kind in ("dir", "plist", "zip", "mf", "sql"):
+            rows = list(m.rows)
+            if len(rows) != len(sigs):
+                return f"manifest-rows:{kind}:{len(rows)}"
+            if sorted(r["md5"] for r in rows) != got:
+                return f"manifest-md5:{kind}"
+            names = sorted((r["name"] or "") for r in rows)
+            if names != sorted(ss.name for ss in sigs):
+                return f"manifest-names:{kind}"
+            if kind in ("dir", "plist", "mf") and loc is not None:
+                ml = {}
+                for r in rows:
+                    il = r["internal_location"]
+                    if kind == "dir":
+                        il = os.path.join(c.parent, il)
+                    ml.setdefault((r["name"], r["md5"]), set()).add(il)
+                for ss, l in wl:
+                    if l not in ml.get((ss.name, ss.md5sum()), {l}):
+                        return f"manifest-location:{kind}"
+        return ""
+
+    def check_results(self, spec, res):
+        """every result: location, md5 of signature vs md5 of its sketch, the signature handed out is the stored one"""
+        loc = self.loc.get(spec)
+        kind = spec.split("-")[0]
+        sigs = self.sigs()
+        by = {}
+        for pos, ss in enumerate(sigs):
+            by.setdefault(ss.name, []).append(pos)
+        for r in res:
+            ss = r.signature
+            if ss.md5sum() != mh_md5(ss.minhash):
+                return f"md5:{kind}"
+            poss = by.get(ss.name)
+            if poss is None:
+                return f"unknown-signature:{kind}"
+            if kind not in ("lca", "lcasql"):
+                if not any(sorted(sigs[p].minhash.hashes.items()) == sorted(ss.minhash.hashes.items()) and
+                           sigs[p].minhash.scaled == ss.minhash.scaled and sigs[p].minhash.num == ss.minhash.num for p in poss):
+                    return f"returned-sketch-differs:{kind}"
+            if loc is not None:
+                want = {loc[p] for p in poss}
+                have = r.location
+                if kind == "lca":
+                    want = {getattr(self.cont[spec], "filename", None)}
+                if have not in want:
+                    return f"result-location:{kind}:{os.path.basename(str(have))}"
+        return ""
+
+    def remember(self, what, res):
+        self.history.append((what, [(r.signature, r.signature.name, r.signature.md5sum(),
+                                     sorted(r.signature.minhash.hashes.items()), float(r.score)) for r in res], res))
+
+    def check_history(self):
+        """results handed out earlier are still what they were"""
+        for what, items, res in self.history:
+            for (ss, name, md5, hs, score), r in zip(items, res):
+                if ss.name != name or ss.md5sum() != md5 or sorted(ss.minhash.hashes.items()) != hs or float(r.score) != score \
+                        or r.signature is not ss:
+                    return f"history:{what.split()[0]}"
+        for i, ss in self.sk.items():
+            snap = self.snap.get(i)
+            if snap is not None and (ss.md5sum(), sorted(ss.minhash.hashes.items())) != snap:
+                return f"history:input-sketch-{i}-changed"
+        return ""
+
+
+class ViewFail(Exception):
+    pass
 
 
 def fmt_results(res, check_sorted):
@@ -185,6 +408,7 @@ def line(flag, tag, items):
 
 
 ORDERED = ("lin", "lazy")
+INDEXED = ("sbt", "lca", "sql")
 
 
 def tag_for(op, spec, mode, best, query, sigs):
@@ -198,7 +422,6 @@ def tag_for(op, spec, mode, best, query, sigs):
     return "E"
 
 
-INDEXED = ("sbt", "lca", "sql")
 
 
 def selected(cont, spec, query, containment):
@@ -210,6 +433,137 @@ def selected(cont, spec, query, containment):
 
 
 # --------------------------------------------------------------------------
+# one operation, several routes (the model sees none of this)
+
+def api_search(case, cont, spec, query, thr, mode, best):
+    from sourmash.search import make_jaccard_search_query
+    r = case.next_route(3)
+    kind = spec.split("-")[0]
+    kw = dict(do_containment=(mode == "c"), do_max_containment=(mode == "m"), best_only=bool(best))
+    if r == 1:
+        # what Index.search does, spelled out: the search object + find(), then a stable sort
+        so = make_jaccard_search_query(threshold=thr, **kw)
+        res = list(cont.find(so, query))
+        res.sort(key=lambda x: -x.score)
+        return res
+    if r == 2 and kind == "sbt" and mode == "j" and not best:
+        from sourmash.sbtmh import search_sbt_index
+        from sourmash.index import IndexSearchResult
+        return sorted((IndexSearchResult(sc, m, cont.location) for m, sc in search_sbt_index(cont, query, thr)),
+                      key=lambda x: -x.score)
+    if r == 0:
+        kw = {k: v for k, v in kw.items() if v}     # the keywords left to their defaults
+    return cont.search(query, threshold=thr, **kw)
+
+
+def api_prefetch(case, cont, query, bp, best):
+    from sourmash.search import make_containment_query
+    r = case.next_route(3)
+    if r == 1:
+        # Index.prefetch spelled out
+        if not cont:
+            raise ValueError("no signatures to search")
+        so = make_containment_query(query.minhash, bp, best_only=bool(best))
+        return list(cont.find(so, query))
+    if r == 2 and not best:
+        return list(cont.prefetch(query, bp))       # the keyword left to its default (all matches)
+    return list(cont.prefetch(query, bp, best_only=bool(best)))
+
+
+def _angular(qmh, smh):
+    """abundance-weighted similarity of two scaled sketches, computed from their hash:abundance tables"""
+    import math
+    top = min(qmh._max_hash, smh._max_hash)     # both at the coarser of the two scaled values
+    a = {h: v for h, v in qmh.hashes.items() if h <= top}
+    b = {h: v for h, v in smh.hashes.items() if h <= top}
+    na, nb = math.sqrt(sum(v * v for v in a.values())), math.sqrt(sum(v * v for v in b.values()))
+    if not na or not nb:
+        return 0.0
+    return 1.0 - 2.0 * math.acos(min(1.0, sum(v * b.get(h, 0) for h, v in a.items()) / (na * nb))) / math.pi
+
+
+def abund_agrees(case, cont, spec, query, thr):
+    """Index.search_abund next to Index.search: its documented refusals (a flat query, no threshold, a flat subject),
+    and, where it applies, threshold 0 hands out the whole collection, a threshold filters that list, best first,
+    every score is the angular similarity of exactly that stored sketch, every location is the stored one"""
+    kind = spec.split("-")[0]
+    sigs = case.sigs()
+    if kind not in ("lin", "lazy", "dir", "plist", "zip", "zipnm", "mf") or not sigs:
+        return ""
+    qmh = query.minhash
+
+    def refused(**kw):
+        try:
+            cont.search_abund(query, **kw)
+        except TypeError:
+            return True
+        except Exception:       # noqa: BLE001
+            return None
+        return False
+    if not qmh.track_abundance:
+        return "" if refused(threshold=thr) is not False else "search_abund-accepts-flat-query"
+    if refused() is False:
+        return "search_abund-accepts-no-threshold"
+    if not all(ss.minhash.track_abundance for ss in sigs):
+        return "" if refused(threshold=0.0) is not False else "search_abund-accepts-flat-subject"
+    if not qmh.scaled or not all(ss.minhash.scaled for ss in sigs):
+        return ""
+    everything = cont.search_abund(query, threshold=0.0)
+    if sorted(r.signature.md5sum() for r in everything) != sorted(ss.md5sum() for ss in sigs):
+        return f"search_abund-threshold-0:{kind}:{len(everything)}-of-{len(sigs)}"
+    v = case.check_results(spec, everything)
+    if v:
+        return "search_abund-" + v
+    sc = [float(r.score) for r in everything]
+    if any(sc[i] < sc[i + 1] for i in range(len(sc) - 1)):
+        return f"search_abund-unsorted:{kind}"
+    for r in everything:
+        if abs(float(r.score) - _angular(qmh, r.signature.minhash)) > 1e-9:
+            return f"search_abund-score:{kind}:{r.signature.name}"
+    t = min(max(thr, 0.0), 1.0)
+    part = cont.search_abund(query, threshold=t)
+    if [(r.signature.name, float(r.score)) for r in part] != [(r.signature.name, float(r.score)) for r in everything if r.score >= t]:
+        return f"search_abund-threshold-filter:{kind}"
+    return ""
+
+
+def peek_agrees(cont, query, bp, r):
+    """Index.peek (the CounterGather look-alike on top of best_containment) against best_containment's answer"""
+    from sourmash.minhash import flatten_and_intersect_scaled
+    if not query.minhash.scaled or query.minhash.track_abundance:
+        return ""
+    try:
+        pk = cont.peek(query.minhash, threshold_bp=bp)
+    except Exception as e:      # noqa: BLE001
+        return f"peek-raised-{exc_name(e)}"
+    if r is None:
+        return "" if not pk else "peek-found-something"
+    if not pk:
+        return "peek-found-nothing"
+    res, imh = pk
+    if float(res.score) != float(r.score):
+        return "peek-score"
+    want = flatten_and_intersect_scaled(res.signature.minhash, query.minhash)
+    if sorted(imh.hashes) != sorted(want.hashes) or imh.scaled != want.scaled:
+        return "peek-intersection"
+    return ""
+
+
+def selected_any(case, cont, spec, query, containment):
+    """the indexed containers are always select()ed first (that is where they refuse); the list-like ones
+    alternately, as the command line would"""
+    kind = spec.split("-")[0]
+    mh = query.minhash
+    if kind in INDEXED or kind == "lcasql":
+        return cont.select(ksize=mh.ksize, moltype=mh.moltype, num=mh.num, scaled=mh.scaled, containment=containment)
+    if case.next_route(2) == 1 and (mh.scaled or (mh.num and not containment)) and kind != "lazy":
+        homog = all(bool(ss.minhash.num) == bool(mh.num) and (not mh.num or ss.minhash.num == mh.num) for ss in case.sigs())
+        if homog:
+            return cont.select(ksize=mh.ksize, moltype=mh.moltype, num=mh.num, scaled=mh.scaled, containment=containment)
+    return cont
+
+
+# --------------------------------------------------------------------------
 # command-line tier: `sourmash search` / `sourmash prefetch` run through the real entry point
 # (sourmash.__main__.main with an argv), compared with the in-process API on the same database files
 
@@ -218,12 +572,18 @@ import csv
 import io
 
 
-def run_cli(argv):
-    """-> (exit code, stdout text, exception class or None)"""
+def run_cli(argv, cwd=None):
+    """-> (exit code, stdout text, exception class or None); with `cwd`, every argument under that directory is
+    handed over as a path relative to it and the command runs from there (the same files, spelled differently)"""
     from sourmash.__main__ import main as sm_main
     out = io.StringIO()
     err = io.StringIO()
     code, exc = 0, None
+    back = os.getcwd()
+    if cwd:
+        argv = [os.path.relpath(x, cwd) + ("/" if x.endswith("/") else "")
+                if isinstance(x, str) and x.startswith(cwd + os.sep) else x for x in argv]
+        os.chdir(cwd)
     try:
         with contextlib.redirect_stdout(out), contextlib.redirect_stderr(err):
             sm_main(argv)
@@ -234,23 +594,48 @@ def run_cli(argv):
             raise
         code, exc = 1, exc_name(e)
     finally:
+        os.chdir(back)
         set_quiet(True)
     return code, out.getvalue(), exc
 
 
-def build_db_file(case, n, kind, sigs):
-    """write one database of the given kind holding `sigs`; -> path"""
-    base = case.tmp(f"db{n}")
+def decoy_of(ss, k):
+    """a sketch that is NOT part of the database: the hashes of `ss` plus one (another md5)"""
+    mh = ss.minhash.to_mutable()
+    extra = 1000003 + k
+    if mh.track_abundance:
+        mh.add_hash_with_abundance(extra, 1)
+    else:
+        mh.add_hash(extra)
+    return SourmashSignature(mh, name=f"decoy{k}")
+
+
+def build_db_file(case, stem, kind, sigs):
+    """write one database of the given kind holding `sigs`; -> path (names are functions of the op's position in the
+    case, so that the oracle knows which location every row must report)"""
+    base = case.tmp(stem)
+
+    def sigdir(d):
+        os.makedirs(d, exist_ok=True)
+        files = []
+        for k, ss in enumerate(sigs):
+            f = os.path.join(d, f"{k:03d}.sig")
+            with open(f, "w") as fp:
+                sigmod.save_signatures_to_json([ss], fp)
+            files.append(f)
+        return files
     if kind == "sig":
         p = base + ".sig"
         with open(p, "w") as fp:
             sigmod.save_signatures_to_json(sigs, fp)
     elif kind == "dir":
         p = base + "_dir"
-        os.makedirs(p, exist_ok=True)
-        for k, ss in enumerate(sigs):
-            with open(os.path.join(p, f"{k:03d}.sig"), "w") as fp:
-                sigmod.save_signatures_to_json([ss], fp)
+        sigdir(p)
+    elif kind == "plist":
+        files = sigdir(base + "_pl")
+        p = base + ".pathlist.txt"
+        with open(p, "w") as fp:
+            fp.write("\n".join(files) + "\n")
     elif kind == "zip":
         p = base + ".zip"
         with SaveSignaturesToLocation(p) as save:
@@ -262,13 +647,16 @@ def build_db_file(case, n, kind, sigs):
         for ss in sigs:
             t.insert(ss)
         t.save(p)
-    elif kind == "lca":
-        p = base + ".lca.json"
+    elif kind in ("lca", "lcasql"):
+        p = base + (".lca.json" if kind == "lca" else ".lca.sqldb")
         sc = max(ss.minhash.scaled for ss in sigs)
         db = LCA_Database(KSIZE, sc)
         for ss in sigs:
             db.insert(ss)
-        db.save(p)
+        if kind == "lca":
+            db.save(p)
+        else:
+            db.save_to_sql(p)
     elif kind == "sql":
         p = base + ".sqldb"
         db = SqliteIndex.create(p)
@@ -277,13 +665,13 @@ def build_db_file(case, n, kind, sigs):
         db.commit()
         db.close()
     elif kind == "mf":
-        d = base + "_mfdir"
+        d = base + "_mf"
         os.makedirs(d, exist_ok=True)
         files = []
         for k, ss in enumerate(sigs):
             f = os.path.join(d, f"{k:03d}.sig")
             with open(f, "w") as fp:
-                sigmod.save_signatures_to_json([ss], fp)
+                sigmod.save_signatures_to_json([decoy_of(ss, k), ss], fp)
             files.append(f)
         m = CollectionManifest.create_manifest(((ss, f) for ss, f in zip(sigs, files)), include_signature=False)
         p = base + ".manifest.csv"
@@ -300,36 +688,67 @@ def parse_dbspec(case, spec):
     for n, part in enumerate(spec.split(";")):
         kind, ids = part.split(":")
         sigs = [case.sk[int(i)] for i in ids.split(",") if i != ""]
-        out.append((kind, build_db_file(case, f"{len(case.cli_files)}_{n}", kind, sigs)))
-        case.cli_files.append(out[-1][1])
+        out.append((kind, build_db_file(case, f"c{case.nops}_{n}", kind, sigs)))
     return out
 
 
+def rel(case, path):
+    """a location as the oracle can predict it: relative to the case's scratch directory"""
+    if path is None or path == "":
+        return "-"
+    path = str(path)
+    return os.path.relpath(path, case.dir) if path.startswith(case.dir) else path
+
+
 def fmt_rows(rows):
-    return ",".join(f"{n}/{m}/{x}" for n, m, x in rows) or "-"
+    return ",".join("|".join(str(x) for x in r) for r in rows) or "-"
 
 
 def read_sig_hashes(path):
     out = []
-    if not os.path.exists(path) or os.path.getsize(path) < 5:      # "[]": nothing was saved
+    if os.path.isdir(path):
+        srcs = [os.path.join(path, f) for f in sorted(os.listdir(path))]
+    elif not os.path.exists(path) or os.path.getsize(path) < 5:      # "[]": nothing was saved
         return out
-    for ss in sourmash.load_file_as_signatures(path):
-        out.append((ss.name, ss.md5sum(), ss.minhash.scaled, sorted(ss.minhash.hashes)))
+    else:
+        srcs = [path]
+    for src in srcs:
+        try:
+            for ss in sourmash.load_file_as_signatures(src):
+                out.append((ss.name, ss.md5sum(), ss.minhash.scaled, sorted(ss.minhash.hashes)))
+        except ValueError:
+            pass        # a collection that holds no signature (nothing matched) cannot be loaded back
     return out
+
+
+def write_query(case, query, tag):
+    """the query file; alternately with a second signature in it, selected with --md5"""
+    qf = case.tmp(f"c{case.nops}_{tag}query.sig")
+    extra = []
+    if case.next_route(3) == 0:
+        decoy = MinHash(0, KSIZE, scaled=(query.minhash.scaled or 1) if not query.minhash.num else 0,
+                        n=query.minhash.num) if False else None
+        mh = query.minhash.copy_and_clear().flatten() if query.minhash.track_abundance else query.minhash.copy_and_clear()
+        mh = mh.to_mutable()
+        mh.add_many([11, 12, 13])
+        extra = [SourmashSignature(mh, name="decoy")]
+    with open(qf, "w") as fp:
+        sigmod.save_signatures_to_json(extra + [query], fp)
+    return qf, (["--md5", query.md5sum()[:10]] if extra else [])
 
 
 def cli_search(case, a):
     spec, mode, best, thrtext, nres, ignore = a[0], a[1], int(a[2]), a[3], int(a[4]), int(a[5])
     query = case.sk[case.q]
     dbs = parse_dbspec(case, spec)
-    qf = case.tmp(f"query{len(case.cli_files)}.sig")
-    case.cli_files.append(qf)
-    with open(qf, "w") as fp:
-        sigmod.save_signatures_to_json([query], fp)
-    out_csv = case.tmp(f"out{len(case.cli_files)}.csv")
-    out_m = case.tmp(f"matches{len(case.cli_files)}.sig")
-    argv = ["search", qf] + [p for _, p in dbs] + ["--threshold", thrtext, "-o", out_csv, "--save-matches", out_m,
-                                                  "-n", str(nres)]
+    qf, qsel = write_query(case, query, "")
+    out_csv = case.tmp(f"c{case.nops}_out.csv")
+    flat_homog = all(not case.sk[int(i)].minhash.track_abundance and not case.sk[int(i)].minhash.num
+                     for part in spec.split(";") for i in part.split(":")[1].split(",") if i != "")
+    r = case.next_route(4)
+    out_m = case.tmp(f"c{case.nops}_matches" + [".sig", ".zip", "_dir/", ".sig.gz"][r])
+    argv = ["search", qf] + [p for _, p in dbs] + qsel + ["--threshold", thrtext, "-o", out_csv, "--save-matches", out_m,
+                                                         "-n", str(nres)]
     if mode == "c":
         argv.append("--containment")
     elif mode == "m":
@@ -338,22 +757,47 @@ def cli_search(case, a):
         argv.append("--best-only")
     if ignore:
         argv.append("--ignore-abundance")
-    code, stdout, exc = run_cli(argv)
-    if exc:
-        return f"err {exc}"
-    if code != 0:
-        return f"exit {code}"
-    rows = []
-    if os.path.exists(out_csv) and os.path.getsize(out_csv):
-        with open(out_csv, newline="") as fp:
-            for r in csv.DictReader(fp):
-                rows.append((r["name"], r["md5"], float(r["similarity"]).hex()))
-    saved = [(n, m) for n, m, _, _ in read_sig_hashes(out_m)] if os.path.exists(out_m) else []
-    shown = sum(1 for l in stdout.split("\n") if re.match(r"^\s*\d+\.\d%\s", l))
+    nofail = case.next_route(4) == 3
+    if nofail:
+        # a database left empty by the selection (or refusing it) is passed over instead of ending the command
+        argv.append("--no-fail-on-empty-database")
+    fl = " F=1" if nofail else ""
+
+    cwd = case.dir if case.next_route(2) else None
+
+    def once(csvp):
+        av = [csvp if x == out_csv else x for x in argv]
+        code, stdout, exc = run_cli(av, cwd)
+        if exc:
+            return f"err {exc}", None, None
+        if code != 0:
+            return f"exit {code}", None, None
+        rows = []
+        if os.path.exists(csvp) and os.path.getsize(csvp):
+            with open(csvp, newline="") as fp:
+                for rw in csv.DictReader(fp):
+                    rows.append((rw["name"], rw["md5"], float(rw["similarity"]).hex(), rel(case, rw["filename"]),
+                                 rw["query_name"], rw["query_md5"]))
+        shown = sum(1 for l in stdout.split("\n") if re.match(r"^\s*\d+\.\d%\s", l))
+        return None, rows, shown
+    err, rows, shown = once(out_csv)
+    if err:
+        return err + fl
+    saved = [(n, m) for n, m, _, _ in read_sig_hashes(out_m.rstrip("/"))]
+    note = ""
+    if case.next_route(4) == 0:
+        # read-only: the same command again (the matches file is appended to / rewritten: not compared)
+        if os.path.isdir(out_m.rstrip("/")):
+            shutil.rmtree(out_m.rstrip("/"))
+        elif os.path.exists(out_m):
+            os.remove(out_m)
+        err2, rows2, shown2 = once(case.tmp(f"c{case.nops}_out2.csv"))
+        if err2 or rows2 != rows or shown2 != shown:
+            note = " R=differs"
     # the in-process answer on the same database files, put together as the command does
     from sourmash.search import search_databases_with_flat_query, search_databases_with_abund_query
     from sourmash import sourmash_args
-    q2 = next(iter(sourmash.load_file_as_signatures(qf)))
+    q2 = [x for x in sourmash.load_file_as_signatures(qf) if x.name != "decoy"][0]
     with contextlib.redirect_stdout(io.StringIO()):
         loaded = sourmash_args.load_dbs_and_sigs([p for _, p in dbs], q2, mode == "j")
     if q2.minhash.track_abundance and ignore:
@@ -366,23 +810,27 @@ def cli_search(case, a):
     else:
         api = search_databases_with_flat_query(q2, loaded, **kw)
     arows = [(r.match.name, r.match.md5sum(), float(r.similarity).hex()) for r in api]
-    return f"ok C={fmt_rows(rows)} A={fmt_rows(arows)} S={','.join(n + '/' + m for n, m in saved) or '-'} D={shown}"
+    return (f"ok C={fmt_rows(rows)} A={fmt_rows(arows)} S={','.join(n + '/' + m for n, m in saved) or '-'} D={shown}"
+            f" Q={query.name}/{query.md5sum()[:8]}{note}{fl}")
 
 
 def cli_prefetch(case, a):
     spec, bptext = a[0], a[1]
     query = case.sk[case.q]
     dbs = parse_dbspec(case, spec)
-    k = len(case.cli_files)
-    qf = case.tmp(f"query{k}.sig")
-    case.cli_files.append(qf)
-    with open(qf, "w") as fp:
-        sigmod.save_signatures_to_json([query], fp)
-    out_csv, out_m = case.tmp(f"pout{k}.csv"), case.tmp(f"pmatches{k}.sig")
-    out_u, out_k = case.tmp(f"punmatched{k}.sig"), case.tmp(f"pmatching{k}.sig")
-    argv = ["prefetch", qf] + [p for _, p in dbs] + ["--threshold-bp", bptext, "-o", out_csv, "--save-matches", out_m,
-                                                    "--save-unmatched-hashes", out_u, "--save-matching-hashes", out_k]
-    code, stdout, exc = run_cli(argv)
+    qf, qsel = write_query(case, query, "p")
+    k = case.nops
+    out_csv = case.tmp(f"c{k}_pout.csv")
+    r = case.next_route(3)
+    out_m = case.tmp(f"c{k}_pmatches" + [".sig", ".zip", "_dir/"][r])
+    out_u, out_k = case.tmp(f"c{k}_punmatched.sig"), case.tmp(f"c{k}_pmatching.sig")
+    argv = ["prefetch", qf] + [p for _, p in dbs] + qsel + ["--threshold-bp", bptext, "-o", out_csv, "--save-matches", out_m,
+                                                           "--save-unmatched-hashes", out_u, "--save-matching-hashes", out_k]
+    lin = case.next_route(3)
+    if lin:
+        # the same answer is promised with the index structures bypassed (LazyLinearIndex over each database) ...
+        argv.append(["--no-linear", "--linear"][lin - 1])
+    code, stdout, exc = run_cli(argv, case.dir if case.next_route(2) else None)
     if exc:
         return f"err {exc}"
     if code != 0:
@@ -390,13 +838,16 @@ def cli_prefetch(case, a):
     rows = []
     if os.path.exists(out_csv) and os.path.getsize(out_csv):
         with open(out_csv, newline="") as fp:
-            for r in csv.DictReader(fp):
-                rows.append((r["match_name"], r["match_md5"], f"{r['intersect_bp']}:{r['scaled']}"))
-    saved = [(n, m) for n, m, _, _ in read_sig_hashes(out_m)] if os.path.exists(out_m) else []
+            for rw in csv.DictReader(fp):
+                rows.append((rw["match_name"], rw["match_md5"], f"{rw['intersect_bp']}:{rw['scaled']}",
+                             f"{rw['query_bp']}:{rw['match_bp']}:{rw['query_n_hashes']}:{float(rw['jaccard']).hex()}:"
+                             f"{rw['ksize']}:{rw['moltype']}:{rw['query_abundance']}",
+                             rel(case, rw["match_filename"]), rw["query_name"], rw["query_md5"]))
+    saved = [(n, m) for n, m, _, _ in read_sig_hashes(out_m.rstrip("/"))]
     un = read_sig_hashes(out_u)
     kn = read_sig_hashes(out_k)
     # in-process: Index.prefetch on every database file, as the command selects it
-    q2 = next(iter(sourmash.load_file_as_signatures(qf)))
+    q2 = [x for x in sourmash.load_file_as_signatures(qf) if x.name != "decoy"][0]
     if q2.minhash.track_abundance:
         with q2.update() as q2:
             q2.minhash = q2.minhash.flatten()
@@ -415,7 +866,7 @@ def cli_prefetch(case, a):
     def hs(x):
         return (f"{x[0][2]}:" + ".".join(map(str, x[0][3]))) if x else "-"
     return (f"ok C={fmt_rows(rows)} A={fmt_rows(arows)} S={','.join(n + '/' + m for n, m in saved) or '-'} "
-            f"U={hs(un)} K={hs(kn)}")
+            f"U={hs(un)} K={hs(kn)} Q={query.name}/{query.md5sum()[:8]}")
 
 
 def main():
@@ -436,6 +887,7 @@ def main():
                 out.write("#\n")
                 continue
             a = w[1:]
+            case.nops += 1
             if op == "sk":
                 i, num, scaled, track = int(a[0]), int(a[1]), int(a[2]), int(a[3])
                 name = a[4]
@@ -449,6 +901,7 @@ def main():
                 else:
                     mh.add_many([int(x) for x in a[5:]])
                 case.sk[i] = SourmashSignature(mh, name=name)
+                case.snap[i] = (case.sk[i].md5sum(), sorted(mh.hashes.items()))
                 res = show(mh)
             elif op == "db":
                 ids = [int(x) for x in a]
@@ -456,7 +909,12 @@ def main():
                     out.write("bad-op\n")
                     continue
                 case.db = ids
+                for c in case.cont.values():
+                    if isinstance(c, SqliteIndex):
+                        c.close()
                 case.cont = {}
+                case.generation += 1
+                case.sigfiles = None
                 res = f"ok {len(ids)}"
             elif op == "q":
                 if int(a[0]) not in case.sk:
@@ -464,7 +922,7 @@ def main():
                     continue
                 case.q = int(a[0])
                 res = "ok"
-            elif op in ("search", "searchord", "prefetch", "best") and (case.q is None or not SPEC_RE.match(a[0])):
+            elif op in ("search", "searchord", "prefetch", "best") and (case.q is None or len(a) < 2 or not SPEC_RE.match(a[0])):
                 res = "bad-op"
             elif op in ("search", "searchord"):
                 spec, mode, best, n, d, k = a[0], a[1], int(a[2]), int(a[3]), int(a[4]), int(a[5])
@@ -475,40 +933,130 @@ def main():
                 elif k < 0:
                     thr = math.nextafter(thr, -math.inf)
                 query = case.sk[case.q]
+                hv = case.check_history()
                 try:
                     cont = case.container(spec)
+                except ViewFail as e:
+                    res = "viewfail " + str(e)
                 except Exception as e:      # noqa: BLE001
                     res = "err-build " + exc_name(e)
                 else:
-                    cont = selected(cont, spec, query, mode in ("c", "m"))
-                    r = cont.search(query, threshold=thr, do_containment=(mode == "c"),
-                                    do_max_containment=(mode == "m"), best_only=bool(best))
+                    if case.next_route(2) == 0:
+                        # (first: with an abundance query the flat search below is a documented refusal)
+                        av = abund_agrees(case, cont, spec, query, thr)
+                        if av:
+                            out.write("viewfail " + av + "\n")
+                            continue
+                    sel = selected_any(case, cont, spec, query, mode in ("c", "m"))
+                    r = api_search(case, sel, spec, query, thr, mode, best)
                     flag, items = fmt_results(r, True)
                     res = line(flag, tag_for(op, spec, mode, best, query, case.sigs()), items)
+                    v = hv or case.check_results(spec, r)
+                    if not v and case.next_route(3) == 0:
+                        # read-only: asking again (through whatever route comes next) gives the same answer
+                        r2 = api_search(case, selected_any(case, cont, spec, query, mode in ("c", "m")), spec, query, thr, mode, best)
+                        if sorted(fmt_results(r2, True)[1]) != sorted(items) and not (best and spec not in ORDERED):
+                            v = f"repeat:{spec.split('-')[0]}:search"
+                    if not v and case.next_route(5) == 0:
+                        # the documented refusal: a search needs a threshold
+                        try:
+                            sel.search(query)
+                            v = "search-without-threshold-accepted"
+                        except TypeError:
+                            pass
+                        except Exception as e:      # noqa: BLE001
+                            v = "search-without-threshold-" + exc_name(e)
+                    case.remember(raw.strip(), r)
+                    if v:
+                        res = "viewfail " + v
             elif op == "prefetch":
                 spec, bp, best = a[0], int(a[1]), int(a[2])
                 query = case.sk[case.q]
+                hv = case.check_history()
                 try:
                     cont = case.container(spec)
+                except ViewFail as e:
+                    res = "viewfail " + str(e)
                 except Exception as e:      # noqa: BLE001
                     res = "err-build " + exc_name(e)
                 else:
-                    cont = selected(cont, spec, query, True)
-                    r = list(cont.prefetch(query, bp, best_only=bool(best)))
+                    sel = selected_any(case, cont, spec, query, True)
+                    r = api_prefetch(case, sel, query, bp, best)
                     flag, items = fmt_results(r, False)
                     res = line(flag, tag_for(op, spec, "c", best, query, case.sigs()), items)
+                    v = hv or case.check_results(spec, r)
+                    if not v and case.next_route(3) == 0:
+                        r2 = api_prefetch(case, selected_any(case, cont, spec, query, True), query, bp, best)
+                        if sorted(fmt_results(r2, False)[1]) != sorted(items) and not (best and spec not in ORDERED):
+                            v = f"repeat:{spec.split('-')[0]}:prefetch"
+                    case.remember(raw.strip(), r)
+                    if v:
+                        res = "viewfail " + v
             elif op == "best":
                 spec, bp = a[0], int(a[1])
                 query = case.sk[case.q]
+                hv = case.check_history()
                 try:
                     cont = case.container(spec)
+                except ViewFail as e:
+                    res = "viewfail " + str(e)
                 except Exception as e:      # noqa: BLE001
                     res = "err-build " + exc_name(e)
                 else:
-                    cont = selected(cont, spec, query, True)
-                    r = cont.best_containment(query, threshold_bp=bp)
+                    sel = selected_any(case, cont, spec, query, True)
+                    try:
+                        r = sel.best_containment(query, threshold_bp=bp)
+                    except ValueError:
+                        # (an empty collection, an unattainable threshold) peek, the look-alike, says "nothing"
+                        if query.minhash.scaled and not query.minhash.track_abundance and \
+                                sel.peek(query.minhash, threshold_bp=bp):
+                            out.write("viewfail peek-found-something-where-best-containment-refuses\n")
+                            continue
+                        raise
                     flag, items = fmt_results([] if r is None else [r], False)
                     res = line(flag, "T", items)
+                    v = hv or case.check_results(spec, [] if r is None else [r]) or peek_agrees(sel, query, bp, r)
+                    case.remember(raw.strip(), [] if r is None else [r])
+                    if v:
+                        res = "viewfail " + v
+            elif op == "insert":
+                # the database grows: containers that can take an insert get it IN PLACE (so that anything they cached
+                # must be refreshed), file-backed ones are rebuilt from the longer list
+                i = int(a[0])
+                if i not in case.sk:
+                    out.write("bad-op\n")
+                    continue
+                ss = case.sk[i]
+                case.db.append(i)
+                case.generation += 1
+                case.sigfiles = None
+                keep = {}
+                for spec, c in list(case.cont.items()):
+                    kind = spec.split("-")[0]
+                    target = case.under.get(spec)
+                    inplace = kind in ("lin", "lazy", "sql") or (kind == "sbt" and case.loc.get(spec) is None) or \
+                        (kind == "lca" and case.loc.get(spec) is not None and case.loc[spec][:1] == [None])
+                    if inplace and target is not None:
+                        try:
+                            target.insert(ss)
+                        except Exception:       # noqa: BLE001   (e.g. a second scaled value into a SqliteIndex): rebuild
+                            if isinstance(c, SqliteIndex):
+                                c.close()
+                            continue
+                        keep[spec] = c
+                        l = case.loc.get(spec)
+                        if l is not None:
+                            # (an empty file-backed container has no entry to copy the location from)
+                            case.loc[spec] = l + [l[0] if l else (getattr(c, "location", None) if kind == "sql" else None)]
+                    elif isinstance(c, SqliteIndex):
+                        c.close()
+                case.cont = keep
+                res = f"ok {len(case.db)}"
+                for spec, c in keep.items():
+                    v = case.views(spec, c)
+                    if v:
+                        res = "viewfail after-insert:" + v
+                        break
             elif op == "clisearch":
                 res = cli_search(case, a) if case.q is not None else "bad-op"
             elif op == "cliprefetch":
